@@ -183,6 +183,12 @@ func Execute(t *testing.T, p *PropertyDef, seed uint64, stratum string, gen, sch
 	}
 	w := simrt.NewWorld(seed, g, s, keepLog)
 	w.Park = lockPark(p.ID, seed)
+	if w.Stmt = stmtYield(p.ID, seed); w.Stmt {
+		w.StmtMask = []uint64{3, 15, 63}[simrt.Mix(seed, 0x57a8)%3]
+		if lockParkProps[p.ID] && os.Getenv("SIM_LOCK_PARK") == "" && simrt.Mix(seed, 0x57a9)%2 == 0 {
+			w.Park = true // half of the statement-yield runs of a property that qualifies for park mode deschedule, too
+		}
+	}
 	stepCap := p.StepCap
 	if stepCap == 0 {
 		stepCap = 20000
@@ -269,6 +275,9 @@ func Execute(t *testing.T, p *PropertyDef, seed uint64, stratum string, gen, sch
 	if n := w.Parks(); n > 0 {
 		res.Probes["lock_parked"] += n
 	}
+	if n := w.StmtYields(); n > 0 {
+		res.Probes["stmt_yielded"] += n
+	}
 	res.Faults = w.Faults
 	res.Sample = run.Sample
 	res.NonTrivial = run.NonTriv
@@ -312,6 +321,21 @@ func lockPark(prop string, seed uint64) bool {
 		return true
 	}
 	return lockParkProps[prop] && simrt.Mix(seed, 0x9a7c)%3 == 0
+}
+
+// stmtYield says whether the statement-level yield points (simrt.StmtYield, overlay transformation T6) are live in this
+// run: preemption between two adjacent non-blocking statements of the files rules.json names. Like lockPark a pure
+// function of property and seed; opt-in per property; SIM_STMT_YIELD=0/1 forces it.
+var stmtYieldProps = map[string]bool{"C05": true, "C16": true}
+
+func stmtYield(prop string, seed uint64) bool {
+	switch os.Getenv("SIM_STMT_YIELD") {
+	case "0":
+		return false
+	case "1":
+		return true
+	}
+	return stmtYieldProps[prop] && simrt.Mix(seed, 0x57a7)%4 == 0
 }
 
 // dumpStacksOnViolation (development aid, SIM_STACKS_ON_VIOLATION=1): where every goroutine stands when an oracle fires.
